@@ -83,6 +83,36 @@ Theorem C10_concurrent_never_on_both_lists :
 Proof. exact concurrent_never_on_both_lists. Qed.
 Print Assumptions C10_concurrent_never_on_both_lists.
 
+(* the same for the other clauses: whatever the schedule, the two maps are ONE register that saw the operations in the
+   order in which they took the lock; the list endpoints asked afterwards report exactly the contents; and the last
+   deny/allow for an id in that order decides its status *)
+Theorem C10_concurrent_refines_single_register :
+  forall t progs sched (s : cstate),
+    SerialEq.run ueqb dupd sched (SerialEq.init progs (fun _ => init t)) = Some s -> SerialEq.finished s = true ->
+    R (SerialEq.st s tt) (fst (spec_run (mkspec [] t) (map (@SerialEq.c_op unit op) (SerialEq.acqs s)))).
+Proof. exact concurrent_refines_single_register. Qed.
+Print Assumptions C10_concurrent_refines_single_register.
+
+Theorem C10_concurrent_lists_exact :
+  forall t progs sched (s : cstate) id,
+    SerialEq.run ueqb dupd sched (SerialEq.init progs (fun _ => init t)) = Some s -> SerialEq.finished s = true ->
+    (forall l, snd (step (SerialEq.st s tt) HListDeny) = RList l ->
+       (In id l <-> exists e, abs_lookup (SerialEq.st s tt) id = Some (Denied, e))) /\
+    (forall l, snd (step (SerialEq.st s tt) HListAllow) = RList l ->
+       (In id l <-> exists e, abs_lookup (SerialEq.st s tt) id = Some (Allowed, e))).
+Proof. exact concurrent_lists_exact. Qed.
+Print Assumptions C10_concurrent_lists_exact.
+
+Theorem C10_concurrent_last_writer_wins :
+  forall t progs sched (s : cstate) ops1 o ops2 id w e,
+    SerialEq.run ueqb dupd sched (SerialEq.init progs (fun _ => init t)) = Some s -> SerialEq.finished s = true ->
+    map (@SerialEq.c_op unit op) (SerialEq.acqs s) = ops1 ++ o :: ops2 ->
+    sets (final (init t) ops1) o id = Some (w, e) ->
+    quiet (fst (step (final (init t) ops1) o)) ops2 id e ->
+    abs_lookup (SerialEq.st s tt) id = Some (w, e).
+Proof. exact concurrent_last_writer_wins. Qed.
+Print Assumptions C10_concurrent_last_writer_wins.
+
 (* non-vacuity: three threads (deny 1 then ask; a session request for 1; an allow for 2); the schedule lets the session
    request in first, then the deny, the allow, the question: the lock was taken in the order 1,0,2,0 and the store is
    what that sequential history gives: 1 denied (the later deny took it off the allow list), 2 allowed *)
